@@ -434,6 +434,32 @@ junk = st.one_of(
 )
 
 
+def version_tables_usable(version, case):
+    """Gateways of every supported version have lived in this process by now: the tables a version string selects
+    must still be that version's own - every presentation type gives a child schema, and the value types a child
+    type takes are the ones the hand-written tables of the floor version know."""
+    import mysensors
+    import voluptuous as vol
+    from mysensors.sensor import ChildSensor
+
+    from vf.ref import tables as T
+
+    for other in T.VERSIONS:
+        mysensors.BaseSyncGateway(drive.RecTransport(), protocol_version=other)
+    gw = mysensors.BaseSyncGateway(drive.RecTransport(), protocol_version=version)
+    floor = M.floor_version(str(version))
+    for pres in gw.const.Presentation:
+        try:
+            ChildSensor(0, pres).validate(gw.protocol_version, {})
+        except vol.Invalid:
+            pass
+        except Exception as exc:  # pylint: disable=broad-except
+            raise Violation("version_tables_contaminated", case, f"protocol_version={version!r} (tables of {floor}): ChildSensor(0, {pres!r}).validate raised {type(exc).__name__}: {exc} once gateways of other versions had been created in the process") from exc
+        for vt in gw.const.VALID_TYPES.get(pres, []):
+            if floor and int(vt) > T.MAX_SUB[floor][T.SET]:
+                raise Violation("version_tables_contaminated", case, f"protocol_version={version!r} selects the {floor} tables, but child type {pres!r} lists value type {vt!r}, which {floor} does not define")
+
+
 def two_gateways(cls_name, version, stats=None):
     """Options of a gateway must keep taking effect when a second gateway of the same class exists."""
     try:
@@ -500,6 +526,7 @@ def _two_gateways(cls_name, version, stats=None):
             pump_all(gw_a, [])
             if len(fired["a"]) != 1 or fired["b"] or 7 in gw_b.sensors:
                 raise Violation("option_ignored.second_gateway", case, f"{cls_name} {version}: a presentation received by gateway A fired callbacks A={len(fired['a'])} B={len(fired['b'])}")
+    version_tables_usable(version, case)
     if stats is not None:
         stats.case(f"pair:{cls_name}:{version}", case if version == "2.2" else None, labels=("two-gateways", cls_name))
 
